@@ -37,7 +37,7 @@ Section RunLength.
     intros Hs Hij Hj. pose proof (qual_lt _ Hj) as Hlt. unfold Model.qual in *.
     destruct (nth_error w j) as [b|] eqn:Ej; [|discriminate].
     destruct (nth_error w i) as [a|] eqn:Ei; [|apply nth_error_None in Ei; lia].
-    assert (Hab : rle K cmp a b) by (eapply sorted_nth_le; eauto).
+    pose proof (sorted_nth_le K cmp cmp_opp w i j a b Hs Hij Ei Ej) as Hab.
     unfold rle, Model.rcmp in *. apply Z.leb_le in Hj. apply Z.leb_le.
     destruct mx_ok as [-> | ->].
     - eapply cmp_trans; eauto.
@@ -94,7 +94,7 @@ Section RunLength.
     pose proof (qual_lt _ G1).
     pose proof (bisect_spec (length w) lo (Nat.min hi (length w))) as B.
     cbv zeta in B. destruct B as [_ [B _]]; auto; try lia.
-    intros Hm. apply G3. lia.
+    intros Hm. replace (Nat.min hi (length w)) with hi by lia. apply G3. lia.
   Qed.
 
   (* what the function guarantees on a sorted window *)
@@ -109,17 +109,17 @@ Section RunLength.
     - destruct (qual w bound mx 0) eqn:E0; cbn [negb].
       2:{ split; [intros; lia|auto]. }
       destruct (qual w bound mx (length w - 1)) eqn:E1.
-      { split; [|lia]. intros i Hi. eapply qual_mono; eauto. lia. }
+      { split; [|intros; lia]. intros i Hi. apply (qual_mono i (length w - 1)); auto. lia. }
       pose proof (gallop_spec (length w) 0%nat 1%nat) as G.
       destruct (gallop K cmp (length w) w bound mx 0 1) as [lo hi].
       destruct G as [G1 [G2 G3]]; auto; try lia.
       pose proof (qual_lt _ G1).
       pose proof (bisect_spec (length w) lo (Nat.min hi (length w))) as B.
       cbv zeta in B. destruct B as [B1 [B2 [B3 B4]]]; auto; try lia.
-      { intros Hm. apply G3. lia. }
+      { intros Hm. replace (Nat.min hi (length w)) with hi by lia. apply G3. lia. }
       set (h := bisect K cmp (length w) w bound mx lo (Nat.min hi (length w))) in *.
       split.
-      + intros i Hi. eapply qual_mono; eauto. lia.
+      + intros i Hi. apply (qual_mono i (h - 1)); auto. lia.
       + intros Hh. auto.
   Qed.
 
